@@ -17,6 +17,7 @@ import (
 	"runtime"
 	"sort"
 	"sync"
+	"sync/atomic"
 	"syscall"
 	"testing"
 
@@ -94,7 +95,7 @@ func TestC03(t *testing.T) {
 	dir := evid.TempDir(t)
 	nHist := r.N(1500, 20000)
 	cfg := ops.GenCfg{
-		Names:  []string{"a", "a", "b", "c/d\n", "", "_internal/x"},
+		Names:  []string{"a", "a", "b", "c/d\n", "", "_internal/x", "alerts/disk%20full", "t/acme%2Fprod", "100%", "pct%zz"},
 		Values: [][]byte{[]byte(""), []byte("one"), []byte("two"), {0, 255, 254, '"', '\\'}},
 		Weights: map[ops.Kind]int{ops.List: 0, ops.Info: 1, ops.Get: 1, ops.GetVer: 1, ops.GetCond: 1,
 			ops.Put: 10, ops.Act: 5, ops.DelVer: 6, ops.Delete: 2},
@@ -284,6 +285,7 @@ func TestC03(t *testing.T) {
 		largeDatabase(t, r, dir)
 		longLivedInstance(t, r, dir)
 		symlinkedDatabase(t, r, dir)
+		racingPairs(t, r, dir)
 	}
 
 	// ---- fixtures written by the pinned commit ----
@@ -404,7 +406,7 @@ func TestC03(t *testing.T) {
 			}
 		}
 	}
-	r.Require("opens_of_files_with_other_modes", "restarts_after_io_failure", "restarts_after_concurrent_writes", "histories", "restarts", "restarts_after_acknowledged_mutation", "restarts_after_failed_mutation", "restarts_with_newest_version_deleted", "fixtures", "restarts_of_continued_fixtures", "stale_sibling_files", "restarts_after_audit_failure", "restarts_of_large_databases", "restarts_beside_a_long_lived_instance", "restarts_of_symlinked_databases")
+	r.Require("opens_of_files_with_other_modes", "restarts_after_io_failure", "restarts_after_concurrent_writes", "histories", "restarts", "restarts_after_acknowledged_mutation", "restarts_after_failed_mutation", "restarts_with_newest_version_deleted", "fixtures", "restarts_of_continued_fixtures", "stale_sibling_files", "restarts_after_audit_failure", "restarts_of_large_databases", "restarts_beside_a_long_lived_instance", "restarts_of_symlinked_databases", "racing_pairs")
 	r.Rule("seeded random histories of 20-30 operations over 3 ordinary names (+ empty and reserved), with a restart (second db.Open of the same path, full-state comparison with the model, per-name next-version probe on a copy, before/after hash+inode+mtime of the file) after EVERY operation; the history continues on the reopened handle half of the time. Plus 6 fixture databases written by the pinned commit. Distinct = (kind of the operation preceding the restart, its outcome class, number of names) and one class per fixture")
 }
 
@@ -577,6 +579,103 @@ func symlinkedDatabase(t *testing.T, r *evid.Run, dir string) {
 		os.Remove("database.real")
 		r.Distinct(fmt.Sprintf("symlinked database relative=%t", rel))
 	}
+}
+
+// racingPairs: two calls whose preconditions exclude each other are made at the same moment on one secret
+// (activate version v / delete version v; activate v / delete the secret; delete version v twice). Whichever of
+// them are acknowledged, the file that is there afterwards opens with a self-consistent state equal to what the
+// running process serves.
+func racingPairs(t *testing.T, r *evid.Run, dir string) {
+	os.MkdirAll(filepath.Join(dir, "pairs"), 0o700)
+	path := filepath.Join(dir, "pairs", "db")
+	key := realdb.DummyKey("c03-pairs")
+	d, err := realdb.Open(path, key)
+	if err != nil {
+		t.Error(err)
+		return
+	}
+	su := realdb.Super()
+	rng := r.Rand(737373)
+	for round := 0; round < r.N(2500, 20000); round++ {
+		name := fmt.Sprintf("pair/%d", round%4)
+		d.Delete(su, name)
+		for v := 1; v <= 3; v++ {
+			d.Put(su, name, []byte(fmt.Sprintf("%s-%d-%d", name, round, v)))
+		}
+		kind := []int{0, 0, 0, 1, 2}[rng.IntN(5)]
+		opA := ops.Op{Kind: ops.Act, Name: name, Version: 2}
+		opB := ops.Op{Kind: ops.DelVer, Name: name, Version: 2}
+		switch kind {
+		case 1:
+			opB = ops.Op{Kind: ops.Delete, Name: name}
+		case 2:
+			opA = ops.Op{Kind: ops.DelVer, Name: name, Version: 2}
+		}
+		var resA, resB ops.Result
+		var wg sync.WaitGroup
+		var gate atomic.Bool
+		// (two more callers of each kind make the same two calls: whoever comes second of a kind is refused
+		// or finds nothing to do, and the chance that an A and a B meet grows)
+		for extra := 0; extra < 4; extra++ {
+			op := opA
+			if extra%2 == 1 {
+				op = opB
+			}
+			wg.Add(1)
+			go func() {
+				defer wg.Done()
+				for !gate.Load() {
+				}
+				ops.ApplyReal(d, su, op)
+			}()
+		}
+		wg.Add(2)
+		go func() {
+			defer wg.Done()
+			for !gate.Load() {
+			}
+			resA = ops.ApplyReal(d, su, opA)
+		}()
+		jitter := rng.IntN(40) // B starts a few hundred nanoseconds later, or not
+		go func() {
+			defer wg.Done()
+			for !gate.Load() {
+			}
+			for k := 0; k < jitter*10; k++ {
+				_ = gate.Load()
+			}
+			resB = ops.ApplyReal(d, su, opB)
+		}()
+		gate.Store(true)
+		wg.Wait()
+		r.Eval(1)
+		r.Count("racing_pairs", 1)
+		what := fmt.Sprintf("round %d: %s -> %s at the same moment as %s -> %s", round, opA, resA, opB, resB)
+		live, err := realdb.Dump(d)
+		if err != nil {
+			r.Violation("live-state-inconsistent", -1, what+": the served state is inconsistent: "+err.Error(), nil)
+			return
+		}
+		d2, err := realdb.Open(path, key)
+		if err != nil {
+			r.Violation("reopen-fails", -1, what+": "+err.Error(), nil)
+			return
+		}
+		re, err := realdb.Dump(d2)
+		if err != nil {
+			r.Violation("reopened-state-inconsistent", -1, what+": after a restart: "+err.Error(), nil)
+			return
+		}
+		if re.Canon() != live.Canon() {
+			r.Violation("restart-state-differs", -1, what+": the reopened state differs from the served one", nil)
+			return
+		}
+		if kind == 0 && resA.Class == refmodel.OK && resB.Class == refmodel.OK {
+			r.Violation("restart-state-differs", -1, what+": both were acknowledged, but no order of the two allows that (an active version cannot be deleted, a deleted one not activated)", nil)
+			return
+		}
+	}
+	r.Distinct("racing pairs")
 }
 
 // concurrentWriters: several clients write at the same time; once every call has been acknowledged the
